@@ -376,3 +376,93 @@ Proof. now intros ->. Qed.
 Lemma exp_wview_ok w :
   fetch (f_bytes w) (seval (fenv w None 0) (XConst 0)) (seval (fenv w None 0) XCursor) = fbw_view w.
 Proof. reflexivity. Qed.
+
+(* ------------------------------------------------ the overload set and overload selection *)
+(* the eight stream operators of DataStreaming.h, by exact signature; anything else is OvOther *)
+Inductive ovl :=
+| OvGenericOut      (* enable_if<!is_abstract_array<T>, WriteStream&>::type operator<<(WriteStream&, const T&) *)
+| OvGenericIn       (* ReadStream& operator>>(ReadStream&, T&)                                                *)
+| OvVecOut          (* WriteStream& operator<<(WriteStream&, const std::vector<T>&)                           *)
+| OvVecIn           (* ReadStream& operator>>(ReadStream&, std::vector<T>&)                                   *)
+| OvArrOut          (* WriteStream& operator<<(WriteStream&, const utility::AbstractArray<T>&)                *)
+| OvStrOut          (* WriteStream& operator<<(WriteStream&, const std::string&)                              *)
+| OvCStrOut         (* WriteStream& operator<<(WriteStream&, const char* )                                    *)
+| OvStrIn           (* ReadStream& operator>>(ReadStream&, std::string&)                                      *)
+| OvOther.
+
+Definition exp_overloads : list ovl :=
+  [OvGenericOut; OvGenericIn; OvVecOut; OvVecIn; OvArrOut; OvStrOut; OvCStrOut; OvStrIn].
+
+(* the write() calls an output overload issues for a value: the chunks of the model *)
+Definition ovl_chunks (o : ovl) (v : value) : option (list (list N)) :=
+  match o, v with
+  | OvGenericOut, VRaw bs => Some [bs]
+  | OvStrOut, VStr s => Some [le_bytes 8 (len s); s]
+  | OvCStrOut, VStr s => Some [le_bytes 8 (len s); s]
+  | OvVecOut, VVec vs => Some (le_bytes 8 (len vs) :: flat_map chunks vs)
+  | OvArrOut, VArr e c bs => Some [le_bytes 8 c; bs]
+  | _, _ => None
+  end.
+
+(* what an input overload computes for a static type: the get of the model *)
+Definition ovl_get (o : ovl) (sh : shape) (r : reader) : option (rres value) :=
+  match o, sh with
+  | OvGenericIn, SRaw n => Some (get (SRaw n) r)
+  | OvStrIn, SStr => Some (get SStr r)
+  | OvVecIn, SVec sh' => Some (get (SVec sh') r)
+  | _, _ => None
+  end.
+
+Local Open Scope N_scope.
+(* value kinds of the selection matrix: 1 int  2 std::string  3 const char*  4 vector<int>
+   5 vector<string>  6 vector<vector<int>>  7 AbstractArray<int>&  8 OwnedArray<int> *)
+Definition out_kinds : list N := [1; 2; 3; 4; 5; 6; 7; 8].
+Definition in_kinds : list N := [1; 2; 4; 5; 6].
+Definition exp_out (k : N) : ovl :=
+  if k =? 1 then OvGenericOut else if k =? 2 then OvStrOut else if k =? 3 then OvCStrOut
+  else if k <=? 6 then OvVecOut else OvArrOut.
+Definition exp_in (k : N) : ovl := if k =? 1 then OvGenericIn else if k =? 2 then OvStrIn else OvVecIn.
+(* streams: 1 WriteStream&  2 BufferWriter  3 FixedBufferWriter  4 WriteSizeCalculator  5 ReadStream&  6 BufferReader *)
+Definition exp_selection : list (N * N * ovl) :=
+  flat_map (fun s => map (fun k => (s, k, exp_out k)) out_kinds) [1; 2; 3; 4] ++
+  flat_map (fun s => map (fun k => (s, k, exp_in k)) in_kinds) [5; 6].
+
+Definition kind_value (k : N) (v : value) : bool :=
+  match v with
+  | VRaw _ => k =? 1
+  | VStr _ => (k =? 2) || (k =? 3)
+  | VVec _ => (4 <=? k) && (k <=? 6)
+  | VArr _ _ _ => (7 <=? k) && (k <=? 8)
+  end.
+Definition kind_shape (k : N) (sh : shape) : bool :=
+  match sh with
+  | SRaw _ => k =? 1
+  | SStr => k =? 2
+  | SVec _ => (4 <=? k) && (k <=? 6)
+  | SArr _ => false
+  end.
+
+Lemma exp_selection_out s k o :
+  In (s, k, o) exp_selection -> s <= 4 ->
+  forall v, kind_value k v = true -> ovl_chunks o v = Some (chunks v).
+Proof.
+  intros I Hs v Hv. unfold exp_selection in I. apply in_app_or in I as [I | I].
+  - apply in_flat_map in I as (s' & _ & I). apply in_map_iff in I as (k' & E & Ik). inversion E; subst. clear E.
+    unfold out_kinds in Ik. cbn [In] in Ik.
+    destruct Ik as [<-|[<-|[<-|[<-|[<-|[<-|[<-|[<-|[]]]]]]]]]; destruct v; cbn in Hv; try discriminate; reflexivity.
+  - apply in_flat_map in I as (s' & Is & I). apply in_map_iff in I as (k' & E & _). inversion E; subst.
+    cbn [In] in Is. lia.
+Qed.
+
+Lemma exp_selection_in s k o :
+  In (s, k, o) exp_selection -> 5 <= s ->
+  forall sh r, kind_shape k sh = true -> ovl_get o sh r = Some (get sh r).
+Proof.
+  intros I Hs sh r Hk. unfold exp_selection in I. apply in_app_or in I as [I | I].
+  - apply in_flat_map in I as (s' & Is & I). apply in_map_iff in I as (k' & E & _). inversion E; subst.
+    cbn [In] in Is. lia.
+  - apply in_flat_map in I as (s' & _ & I). apply in_map_iff in I as (k' & E & Ik). inversion E; subst. clear E.
+    unfold in_kinds in Ik. cbn [In] in Ik.
+    destruct Ik as [<-|[<-|[<-|[<-|[<-|[]]]]]]; destruct sh; cbn in Hk; try discriminate; reflexivity.
+Qed.
+Local Close Scope N_scope.
